@@ -98,3 +98,15 @@ pub fn sym_b() -> String { String::new() }
 #[derive(TS)] #[ts(rename_all = "camelCase", rename_all_fields = "UPPERCASE")] pub enum RN3<T> { FooBar { baz_qux: T }, #[ts(rename_all = "kebab-case")] QuuxCorge { grault_x: T, #[ts(rename = "own")] y: T } }
 #[derive(TS)] #[ts(rename_all = "SCREAMING_SNAKE_CASE", tag = "kind")] pub enum RN4<T> { HttpServer { port_no: T }, V2Beta, #[ts(skip)] Hidden }
 #[derive(TS)] #[ts(rename_all = "kebab-case")] pub struct RN5<T> { pub http_server2: T, pub _lead: T, pub trail_: T, pub a: T }
+#[derive(TS)] pub struct S1<T>(pub T, #[ts(skip)] pub i32, #[ts(inline)] pub Inner<T>);
+#[derive(TS)] pub struct S2<T> { #[ts(optional = nullable)] pub a: Option<T>, #[ts(optional)] pub b: Option<Vec<T>>, pub c: Option<Option<T>> }
+#[derive(TS)] #[ts(optional_fields = nullable)] pub struct S3<T: TS> { pub a: Option<T>, pub b: Vec<T> }
+#[derive(TS)] #[ts(tag = "k")] pub enum S4<T> { A { v: T }, #[ts(untagged)] B(T), #[ts(skip)] C, D {}, E }
+#[derive(TS)] pub enum S5<T> { A(T, Vec<T>), B(#[ts(skip)] i32, T), C {}, D() }
+#[derive(TS)] pub struct S6<T, E> { pub r: Result<T, E>, pub t: (T, E, bool), pub a: [T; 2], pub m: HashMap<String, Vec<T>>, pub n: Vec<Option<(T, E)>> }
+#[derive(TS)] pub struct S7<T> { pub v: T, pub kids: Vec<S7<T>>, pub parent: Option<Box<S7<T>>> }
+#[derive(TS)] #[ts(type = "Array<number>")] pub struct S8<T: TS> { pub never: T }
+#[derive(TS)] pub struct S9<T> {  #[ts(as = "Option<T>")] pub a: i32, #[ts(as = "Option<T>", optional)] pub b: i32, #[ts(type = "T | null")] pub c: i32, pub z: T }
+#[derive(TS)] #[ts(bound = "T: TS")] pub struct S10<T: Clone> { pub a: T }
+#[derive(TS)] #[ts(tag = "t", content = "c", rename_all = "snake_case")] pub enum S11<T> { FooBar(T), BazQux { qu_ux: T }, #[ts(rename = "X")] Y(T, T) }
+#[derive(TS)] #[ts(untagged)] pub enum S12<T> { A(T), B { v: T }, C, D(T, T) }
